@@ -33,6 +33,9 @@ CONFIGS = {
     # the renamed entry: the callback is a backend call on the request's behalf, Rrenameat and Rflush wait for it
     # (no independent operation beside it: a rename excludes every other path operation - PathLocks.tla)
     "flush-renamedeep": [(1, "op", 0, "renamedeep"), (2, "flush", 1, ""), (3, "flush", 7, "")],
+    # a frame of an unknown type that carries the tag of a request in progress is refused without touching that tag:
+    # a flush of the tag still waits for the request
+    "flush-badsametag": [(1, "op", 0, "read"), (1, "bad", 0, "type"), (2, "flush", 1, "")],
     "dup-tag":       [(1, "op", 0, "getattr"), (1, "op", 0, "read"), (2, "op", 0, "write")],
     "tag-reuse":     [(1, "op", 0, "getattr"), (2, "op", 0, "read"), (1, "op", 0, "walk")],
     "bad-frame":     [(1, "op", 0, "read"), (2, "bad", 0, ""), (3, "op", 0, "getattr")],
